@@ -217,7 +217,7 @@ func checkC18(c CaseC18) error {
 					}
 					if res.st != nil {
 						if si := res.input - len(rtBytes); si >= 0 && si < len(c.Static) {
-							if d := sgen.Diff(sgen.Normalize(res.st).SortedServices(), staticWant[si]); d != "" {
+							if d := sgen.Diff(sgen.ReconcileGaps(sgen.Normalize(res.st).SortedServices(), staticWant[si]), staticWant[si]); d != "" {
 								errs[g] = vt.FailSig("concurrent-differs-from-model", "static input %d parsed concurrently (by goroutine %d) is not what the call returns alone: %s", res.input, other, d)
 								return
 							}
@@ -257,6 +257,17 @@ func rtModel(ext ExtSpec, zone string, m *rgen.Msg, got rgen.NRealtime) error {
 		return rgen.Compare(got, rgen.Expect(m, zone, rgen.ExpectOpts{}))
 	}
 }
+
+// c18Zones are loadable zone names (the model computes the expected dates in the zone, so any of them will do).
+var c18Zones = []string{"America/New_York", "America/Los_Angeles", "Asia/Tokyo", "Europe/London", "Europe/Paris", "Europe/Berlin", "Europe/Madrid", "Europe/Rome",
+	"Europe/Vienna", "Europe/Zurich", "Europe/Oslo", "Europe/Stockholm", "Europe/Helsinki", "Europe/Warsaw", "Europe/Prague", "Europe/Budapest", "Europe/Athens",
+	"Europe/Istanbul", "Europe/Moscow", "Europe/Lisbon", "Europe/Dublin", "Europe/Amsterdam", "Europe/Brussels", "Europe/Copenhagen", "America/Chicago",
+	"America/Denver", "America/Phoenix", "America/Anchorage", "America/Toronto", "America/Vancouver", "America/Mexico_City", "America/Bogota", "America/Lima",
+	"America/Halifax", "America/St_Johns", "America/Winnipeg",
+	"Asia/Seoul", "Asia/Shanghai", "Asia/Hong_Kong", "Asia/Singapore", "Asia/Bangkok", "Asia/Jakarta", "Asia/Manila", "Asia/Kolkata", 
+	"Asia/Dhaka", "Asia/Dubai", "Asia/Jerusalem", "Asia/Riyadh", "Asia/Tashkent", "Asia/Kathmandu", "Asia/Taipei", "Asia/Ho_Chi_Minh",
+	"Australia/Sydney", "Australia/Melbourne", "Australia/Perth", "Australia/Adelaide", "Australia/Brisbane", "Pacific/Auckland", "Pacific/Honolulu",
+	"Pacific/Fiji", "Africa/Johannesburg", "Africa/Lagos", "Africa/Nairobi", "Africa/Casablanca", "Atlantic/Reykjavik", "Pacific/Kiritimati"}
 
 func genC18(t *rapid.T) (CaseC18, bool) {
 	c06NoSizeClasses = true
@@ -300,7 +311,9 @@ func genC18(t *rapid.T) (CaseC18, bool) {
 		o.MinServices = 1
 		f, _ := sgen.GenFeed(t, o)
 		if staticHeavy && len(f.Agencies) > 0 {
-			f.Agencies[0].TZ = []string{"America/New_York", "America/Los_Angeles", "Asia/Tokyo"}[i%3]
+			// a zone drawn from a long list: most workloads then meet zone names this process has not loaded yet (whatever is
+			// done once per name is done while the calls of this workload overlap)
+			f.Agencies[0].TZ = rapid.SampledFrom(c18Zones).Draw(t, "staticZone")
 		}
 		c.Static = append(c.Static, f)
 	}
@@ -359,6 +372,9 @@ func genC18(t *rapid.T) (CaseC18, bool) {
 			in := rapid.IntRange(0, nIn-1).Draw(t, "input")
 			if staticHeavy && rapid.IntRange(0, 3).Draw(t, "staticCall") != 0 {
 				in = len(c.RT) + len(c.BadRT) + rapid.IntRange(0, nSt-1).Draw(t, "staticInput")
+			}
+			if staticHeavy && k == 0 {
+				in = len(c.RT) + len(c.BadRT) + g%nSt // every goroutine starts on an archive: several on the same one at once
 			}
 			plan = append(plan, in)
 		}
